@@ -75,6 +75,10 @@ class SessionRules(Harness):
                     out.append({"fam": "events", "event": ev, "where": where, "n0": n0, "n1": 1, "L": 1})
             out.append({"fam": "events", "event": ev, "where": 0, "n0": 3, "n1": 0, "L": 1})
         out.append({"fam": "halt-then-noexec", "L": 1})
+        # two markets: a normal agent and a high-frequency agent, each free to pick the market of its order
+        out.append({"fam": "two-markets-hft"})
+        # one halt rule over two target markets: after the halt both markets match again
+        out.append({"fam": "halt-two-targets", "L": 1})
         if tier == "thorough":
             out.append({"fam": "halt-then-noexec", "L": 2})
             out.append({"fam": "events", "event": "halt", "where": 1, "n0": 4, "n1": 2, "L": 2})
@@ -106,6 +110,26 @@ class SessionRules(Harness):
             st = rn.base_settings(n_agents=2, sessions=sessions, extra={"EV": ev})
             menu = {"acts": ["limit"], "per_agent": {"0": {"side": "B"}, "1": {"side": "S"}}, "vol_fixed": 1,
                     "price_hi": 1000, "active_from": 1, "price_by_time": {"1": "sym", "default": 300}}
+        elif fam == "two-markets-hft":
+            markets = {f"M{i}": {"class": "Market", "tickSize": 1, "marketPrice": 300} for i in range(2)}
+            sessions = [rn.session(0, 2, True, True, maxNormalOrders=1, maxHighFrequencyOrders=1, highFrequencySubmitRate=1.0)]
+            st = rn.base_settings(n_agents=1, n_hft=1, sessions=sessions, markets=markets)
+            # the normal agent sells one unit at 300 on a market of its choice in both steps; the high-frequency agent
+            # buys one unit at 300 on a market of its choice after each normal batch
+            menu = {"acts": ["limit"], "per_agent": {"0": {"side": "S"}, "1": {"side": "B", "acts": ["none", "limit"]}},
+                    "price_fixed": 300, "vol_fixed": 1}
+        elif fam == "halt-two-targets":
+            markets = {f"M{i}": {"class": "Market", "tickSize": 1, "marketPrice": 300} for i in range(2)}
+            ev = dict(EVENTS["halt"])
+            ev["haltingTimeLength"] = case["L"]
+            ev["triggerChangeRate"] = 0.1
+            ev["targetMarkets"] = ["M0", "M1"]
+            sessions = [rn.session(0, 5, True, True, maxNormalOrders=2, events=["EV"])]
+            st = rn.base_settings(n_agents=2, sessions=sessions, markets=markets, extra={"EV": ev})
+            # t=1: solver-chosen prices on M0 (the fill may fire the halt); t=2..4: crossing quotes at 300 on M1
+            menu = {"acts": ["limit"], "per_agent": {"0": {"side": "B"}, "1": {"side": "S"}}, "vol_fixed": 1,
+                    "price_hi": 1000, "active_from": 1, "price_by_time": {"1": "sym", "default": 300},
+                    "market_by_time": {"1": 0, "2": 1, "3": 1, "4": 1}}
         elif fam == "cancel-round":
             sessions = [rn.session(0, case["n0"], True, False, maxNormalOrders=2),
                         rn.session(1, 1, True, True, maxNormalOrders=2)]
@@ -128,7 +152,7 @@ class SessionRules(Harness):
             if "PROBE" not in sd.get("events", []) and not (fam == "events" and case["event"] == "probe"):
                 sd["events"] = list(sd.get("events", [])) + ["PROBE"]
         st["PROBE"] = {"class": "ProbeAll"}
-        watch = _RoundWatch(g, (fam == "events" and case["event"] == "halt") or fam == "halt-then-noexec")
+        watch = _RoundWatch(g, (fam == "events" and case["event"] == "halt") or fam in ("halt-then-noexec", "halt-two-targets"))
         ctx = rn.make_run(g, st, menu, on_event=watch)
         sim = ctx.sim
         ctx.declared_exec = {s.session_id: sd["withOrderExecution"]
@@ -279,8 +303,8 @@ class _RoundWatch:
             for mid in list(self.pending):
                 m = sim.id2market[mid]
                 del self.pending[mid]
-                if self.has_halt and not m.is_running:
-                    continue
+                if self.has_halt and (not m.is_running or not sim.current_session.with_order_execution):
+                    continue          # a halt is in force (pams suspends matching session-wide while it lasts)
                 _Monitors(self.g, ("C03",)).check_uncrossed(m, tag="C09.no-round-after-acceptance")
                 self.g.note("round-checked")
         if kind in ("submitted", "canceled"):
